@@ -11,7 +11,9 @@ for d in sorted(glob.glob('/verif/seeded/*')):
     conf = m.get('confirmed_by_seedcheck', {})
     dw = conf.get('demo_without_patch') or {}
     dp = conf.get('demo_with_patch') or {}
-    demo_ok = all(v['rc'] == 0 for v in dw.values()) and any(v['rc'] != 0 for v in dp.values()) if dw and dp else None
+    # a tag configuration counts only if the demo builds and passes on the clean tree
+    good = [k for k, v in dw.items() if v['rc'] == 0]
+    demo_ok = (len(good) > 0 and any(dp.get(k, {}).get('rc', 0) != 0 for k in good)) if dw and dp else None
     suite = conf.get('root_suite', {}).get('rc') if conf.get('root_suite') else None
     pkg = conf.get('pkg_tests', {}).get('rc') if conf.get('pkg_tests') else None
     det = []
